@@ -30,6 +30,18 @@ def generate(rng, tier, n):
     cases = []
     cid = 0
     seed = rng.randrange(1 << 40)
+    # games built, solved with the production samplers and dropped one after the other in one process, same shape but
+    # different chance weights: nothing computed for one game may be reused for the next
+    for w in (0.1, 0.9, 0.2, 0.85):
+        t, st = blind_bet_tree(w)
+        m_ = rng.choice(["sampled", "external"])
+        cb = CaseBuilder(cid, t, {"stats": st, "method": m_, "preset": "dcfr", "threads": 1, "live": True, "stat_runs": []})
+        cb.meta["scope"] = set()
+        s = cb.solve(m_, 4000, 0.0, 1, "dcfr", None, kind="solve_long")
+        cb.info(s, kind="info_long")
+        cb.meta["stat_runs"].append((4000, len(cb.ops) - 2))
+        cases.append(cb)
+        cid += 1
     while len(cases) < n:
         c = rng.random()
         live = False
@@ -82,6 +94,20 @@ def generate(rng, tier, n):
         cases.append(cb)
         cid += 1
     return cases
+
+
+def blind_bet_tree(w):
+    """a hidden coin with weights w : 1-w, player one (not seeing it) bets L or R, +-1; player two then makes an
+    irrelevant choice.  The best bet depends on the weights: solving with another coin gives the wrong answer."""
+    from ..gen import tree_stats
+
+    def p2(x, info):
+        return {"p": 2, "i": info, "a": [[1, {"t": f2b(x)}], [2, {"t": f2b(x - 0.25)}]]}
+
+    def p1(sign):
+        return {"p": 1, "i": 1, "a": [[1, p2(sign * 1.0, 21)], [2, p2(-sign * 1.0, 22)]]}
+    t = {"c": None, "o": [[f2b(w), p1(1.0)], [f2b(1.0 - w), p1(-1.0)]]}
+    return t, tree_stats(t)
 
 
 def early_exit_tree(rng):
